@@ -65,7 +65,9 @@ func New(config ...Config) fiber.Handler {
 			if !isValid {
 				panic("[CSRF] Invalid origin format in configuration:" + origin)
 			}
-			sd := subdomain{prefix: normalizedOrigin[:i+3], suffix: normalizedOrigin[i+3:]}
+			// split behind "scheme://" of the normalized origin (i is an index into the untrimmed entry)
+			schemeSep := strings.IndexByte(normalizedOrigin, ':') + 3
+			sd := subdomain{prefix: normalizedOrigin[:schemeSep], suffix: normalizedOrigin[schemeSep:]}
 			trustedSubOrigins = append(trustedSubOrigins, sd)
 		} else {
 			trimmedOrigin := utils.Trim(origin, ' ')
